@@ -4,6 +4,7 @@ pub mod iso_m {
 use super::*;
 impl ParseISO8601<DateTime<FixedOffset>> for DateTime<FixedOffset> {
 //@ fn chronoutil.rs impl ParseISO8601<DateTime<FixedOffset>> for DateTime<FixedOffset> :: parse_from_iso8601
+//@ params s
 //@ hideutf8
 //@ props C08 C16
 //@ ret r
